@@ -230,7 +230,8 @@ CheckList(env, ctx, es, j, acc) ==
     ELSE LET a == TypeOf(env, ctx, es[j]) IN
          IF a.c # "ok" THEN a
          ELSE IF acc.t.k = "any" THEN CheckList(env, ctx, es, j + 1, [acc EXCEPT !.t = a.t, !.nv = @ \/ a.nv, !.pr = @ \o a.pr])
-         ELSE IF ~Compat(a.t, acc.t, FALSE) THEN Fail("OperandMismatch")
+         \* (comparing the elements is no cast: function values are elements like any other)
+         ELSE IF ~Compat(a.t, acc.t, TRUE) THEN Fail("OperandMismatch")
          ELSE CheckList(env, ctx, es, j + 1, [acc EXCEPT !.nv = @ \/ a.nv, !.pr = @ \o a.pr])
 
 CheckObj(env, ctx, fs, j, acc) ==
@@ -368,7 +369,8 @@ TypeOfRaw(env, ctx, e) ==
             IF a.c # "ok" THEN a
             ELSE LET b == TypeOf(env, ctx, e.e) IN
                  IF b.c # "ok" THEN b
-                 ELSE IF ~Compat(b.t, a.t, FALSE) THEN Fail("AssignMismatch")
+                 \* (as for an annotated let: a function value may be assigned unless a value of type any would have to be cast to it)
+                 ELSE IF ~Compat(b.t, a.t, ~ContainsAny(b.t)) THEN Fail("AssignMismatch")
                  ELSE IF a.t.k # "never" /\ ~AsgAllowed(e.op, a.t) THEN Fail("BadOperator")
                  ELSE Good(IF a.t.k = "never" \/ b.t.k = "never" THEN TNever ELSE TNull, a.nv \/ b.nv, a.bk \/ b.bk, a.pr \o b.pr)
       [] e.k \in {"call", "spawn"} ->
